@@ -29,7 +29,7 @@ def main():
             v = res.verdicts[(k, i)]
             cls = ("ok" if v == "ok" else "skip" if v == "A-invalid" else "differs" if v == "c-differs"
                    else "c-abort" if v.startswith("c-event:abort") or v.startswith("c-event:cc_error")
-                   else "inconclusive" if ("inexact" in v or "divzero" in v)
+                   else "inconclusive" if ("inexact" in v or "divzero" in v or "winext" in v)
                    else "machine-trap" if v.startswith("A-trap") else "inconclusive")
             cnt[cls] += 1
             first.setdefault(cls, (i, v))
